@@ -29,7 +29,7 @@ logging.getLogger("onnx_ir").setLevel(logging.ERROR)
 PROPERTY = "C08"
 LEVEL = "fault_enumeration"
 TIERS = {
-    "quick": {"wall": 37, "optimize_wall": 8, "chunk": 4, "shrink_budget": 200, "shrink_wall": 60, "per_run_cap": 300.0},
+    "quick": {"max_runs": 400, "optimize_runs": 80, "wall": 420, "optimize_wall": 180, "chunk": 4, "shrink_budget": 200, "shrink_wall": 60, "per_run_cap": 300.0},
     "thorough": {"wall": 900, "optimize_wall": 120, "chunk": 10, "shrink_budget": 500, "shrink_wall": 240, "per_run_cap": 600.0},
 }
 RULE = (
